@@ -35,6 +35,12 @@ func framedMsg(rr *core.Rand, declared, avail int) (raw []byte, H int) {
 			// previous line ends with a lone CR: inserting a line is still fine (names never start with LF)
 		}
 		out = append(out[:pos:pos], append([]byte(line), out[pos:]...)...)
+		if rr.Intn(5) == 0 {
+			// a second Content-Length later in the block (other value, maybe folded): the first one counts
+			l2 := []string{"Content-Length", "l", "CONTENT-length"}[rr.Intn(3)] + []string{": ", ":", ":\r\n "}[rr.Intn(3)] + strconv.Itoa(rr.Intn(300)) + "\r\n"
+			at := len(out)
+			out = append(out[:at:at], []byte(l2)...)
+		}
 	}
 	out = append(out, head[lastE:]...) // blank line
 	H = len(out)
